@@ -358,9 +358,13 @@ func genSpecForX(p *packages.Package, pc *PkgContracts, executable bool) (string
 			sig := fn.Type().(*types.Signature)
 			for i := 0; i < sig.Params().Len(); i++ {
 				v := sig.Params().At(i)
-				if v.Name() != "" && used[v.Name()] && !seen[v.Name()] {
-					seen[v.Name()] = true
-					out = append(out, localVar{v.Name(), types.TypeString(v.Type(), qual)})
+				vn := v.Name()
+				if vn == "" || vn == "_" {
+					vn = fmt.Sprintf("arg%d", i) // unnamed callee parameter: positional name
+				}
+				if used[vn] && !seen[vn] {
+					seen[vn] = true
+					out = append(out, localVar{vn, types.TypeString(v.Type(), qual)})
 				}
 			}
 		}
@@ -486,19 +490,21 @@ func findAnchorStmt(fset *token.FileSet, fd *ast.FuncDecl, anchor string) ast.St
 		return nil
 	}
 	var found ast.Stmt
+	best := -1
 	ast.Inspect(fd.Body, func(n ast.Node) bool {
 		st, ok := n.(ast.Stmt)
-		if !ok || found != nil {
-			return found == nil
+		if !ok {
+			return true
 		}
 		switch st.(type) {
 		case *ast.AssignStmt, *ast.ExprStmt, *ast.ReturnStmt, *ast.IncDecStmt, *ast.DeclStmt, *ast.DeferStmt, *ast.GoStmt:
 			a, b := fset.Position(st.Pos()).Offset, fset.Position(st.End()).Offset
-			if a >= 0 && b <= len(data) && strings.Contains(string(data[a:b]), anchor) {
-				found = st
+			// the smallest statement containing the anchor; among equals the first
+			if a >= 0 && b <= len(data) && strings.Contains(string(data[a:b]), anchor) && (best < 0 || b-a < best) {
+				found, best = st, b-a
 			}
 		}
-		return found == nil
+		return true
 	})
 	return found
 }
